@@ -428,6 +428,9 @@ def _make_fields_iterator(
                 for s in declared
                 if not s.startswith("_") and s not in public_attribs
             )
+        # Only private slots and no `__dict__` to fall back on: there is nothing to yield.
+        if not public_attribs and not getattr(tp, "__dictoffset__", 1):
+            return lambda val: iter(())
     # If we located all public attributes, create a factory function for iterating over
     #   these fields and fetching the value from an instance.
     #   (A dataclass has exactly its declared fields, even if none of them is public:
